@@ -47,6 +47,16 @@ static size_t _GD_DoRawOut(DIRFILE *restrict D, gd_entry_t *restrict E,
 
   s0 -= D->fragment[E->fragment_index].frame_offset * E->EN(raw,spf);
 
+  /* a position whose byte offset cannot be represented is refused before
+   * anything is opened (or, for an out-of-place write, created) */
+  if (GD_SIZE(E->EN(raw,data_type)) > 0 &&
+      s0 > GD_INT64_MAX / GD_SIZE(E->EN(raw,data_type)))
+  {
+    _GD_SetError(D, GD_E_RANGE, GD_E_OUT_OF_RANGE, NULL, 0, NULL);
+    dreturn("%i", 0);
+    return 0;
+  }
+
   if (!_GD_Supports(D, E, GD_EF_OPEN | GD_EF_SEEK | GD_EF_WRITE)) {
     dreturn("%i", 0);
     return 0;
